@@ -47,9 +47,9 @@ def trigDiamond (S : Schema) (ops : List Op) : Bool :=
 `(qstart k c)` builds `an(entity(x, <trivially true condition on x>))` over `x = let(C, None)` and takes `iter(q.evaluate())`:
 nothing runs yet. `(qnext k)` is one `next()`. The first `next()` runs `remove_dead_instances()` and starts the domain
 generator of `get_instances_of_type`: it walks `[type_] + recursive_subclasses(type_)` (the classes that exist THEN) and
-copies the list of a class when it REACHES that class; it yields `wrapper.instance`, which is `None` for an instance that
-died after the copy was taken — the condition then raises `AttributeError` and the evaluation is over. Every yielded
-instance enters the cached domain of the variable (a strong reference).
+copies the list of a class when it REACHES that class; an instance that died after the copy was taken is skipped (F-C13-4
+repaired; before, `wrapper.instance` = `None` was yielded, the condition raised `AttributeError` and the evaluation was
+over). Every yielded instance enters the cached domain of the variable (a strong reference).
 The operations of the history in between are ordinary model steps (`SG.step`); the walk reads the model's `byClass`. -/
 
 inductive DOp where
@@ -77,7 +77,7 @@ structure DRun where
   defs : List (Cls × Cls) := []
   iters : List Iter := []
 
-def stepDOp (q : Quirks) (snap : Bool) (Sfinal : Schema) (r : DRun) : DOp → DRun
+def stepDOp (q : Quirks) (snap skipDead : Bool) (Sfinal : Schema) (r : DRun) : DOp → DRun
   | .m ops => { r with st := runXS Sfinal q r.st ops }
   | .defclass c p => { r with defs := r.defs ++ [(c, p)] }
   | .qstart k c =>
@@ -87,7 +87,7 @@ def stepDOp (q : Quirks) (snap : Bool) (Sfinal : Schema) (r : DRun) : DOp → DR
     match r.iters.find? (fun it => it.key == k) with
     | none => r
     | some it =>
-      let (st, it') := advance q snap (schemaWith r.defs) Sfinal r.st it
+      let (st, it') := advance q snap skipDead (schemaWith r.defs) Sfinal r.st it
       { r with st := st, iters := r.iters.map (fun x => if x.key == k then it' else x) }
 
 def iterDiff (st : DSt) (i : Nat) (it : Iter) : Option String :=
@@ -109,14 +109,15 @@ def obsD (r : DRun) : String :=
     r.iters.map (fun it => s!"it{it.key}={showNats (sortNat it.yielded)}/{statusName it.status}")
   a ++ "|" ++ ";".intercalate b
 
-def runDOps (q : Quirks) (snap : Bool) (Sfinal : Schema) (ops : List DOp) : DRun :=
-  ops.foldl (stepDOp q snap Sfinal) { st := St.init lifo }
+def runDOps (q : Quirks) (snap skipDead : Bool) (Sfinal : Schema) (ops : List DOp) : DRun :=
+  ops.foldl (stepDOp q snap skipDead Sfinal) { st := St.init lifo }
 
 /-- is `c` at or below `t` in the final hierarchy -/
 def isBelow (S : Schema) (t c : Cls) : Bool := (S.below t).contains c
 
-/-- F-C13-3 / F-C13-4: while a stepwise evaluation is suspended (after its first `next()`, before it ended) an
-instance of its type is created / some instance is dropped -/
+/-- F-C13-3: while a stepwise evaluation is suspended (after its first `next()`, before it ended) an instance of its
+type is created. (Second component: some instance is dropped meanwhile — the trigger of F-C13-4, repaired in /repo: no
+case is attributed to it any more.) -/
 def trigSuspended (S : Schema) (ops : List DOp) : Bool × Bool :=
   let step := fun (acc : List (Nat × Cls) × List Nat × Bool × Bool) (op : DOp) =>
     let (pending, started, t3, t4) := acc
@@ -146,12 +147,13 @@ def run (s : Sexp) : String :=
         | .m xs => xs.filterMap (fun x => match x with | XOp.m op => some op | _ => none)
         | _ => [])
       let S := schemaWith (parseDefs xs)
-      let m := obsD (runDOps Quirks.asIs false S dops)
-      let mr := obsD (runDOps Quirks.none true S dops)
-      let (t3, t4) := trigSuspended S dops
+      let m := obsD (runDOps Quirks.asIs false true S dops)
+      let mr := obsD (runDOps Quirks.none true true S dops)
+      let (t3, _) := trigSuspended S dops
       let trig := joinTrig [(trigReeval ops, "F-C13-1"),
-        -- (F-C13-2, classes listed twice below T, is repaired in /repo: no case is attributed to it any more)
-        (t3, "F-C13-3"), (t4, "F-C13-4")]
+        -- (F-C13-2, classes listed twice below T, and F-C13-4, an instance that died while an evaluation was suspended
+        -- yielded as None, are repaired in /repo: no case is attributed to them any more)
+        (t3, "F-C13-3")]
       s!"model={m}\tspec=ok|*\ttrig={trig}\tmodel_repaired={mr}"
     | none => "error=bad-case"
   | _ => "error=bad-case"
